@@ -88,4 +88,6 @@ Pool3 == <<"Ca", "Cb", "Cc">>
 \* component names that are prefixes of each other (name matching must be exact)
 PoolP == <<"Ca", "Cab", "Caba">>
 Pool4 == <<"Ca", "Cb", "Cc", "Cd">>
+\* identifier spellings the name -> field conversions must agree on (trailing, leading, doubled underscore)
+PoolS == <<"Ca_", "_Cb", "C__c">>
 =============================================================================
